@@ -77,6 +77,14 @@ theorem key_injective (p p' : Bytes) (q q' : Option Bytes) :
     simp only [List.cons.injEq, and_true] at h
     exact h.2.symm
 
+/-- the two keys a request is looked up under, in the code's order (`call_all`): first path *and* query, then the path
+alone — as abstract keys exactly the two the cache model's `lookup` tries -/
+theorem callAll_abs (p : Bytes) (q : Option Bytes) :
+    (callAll (pathAndQuery p q)).map abs = [Cache.Key.pathQuery p (normQ q), Cache.Key.path p] := by
+  have h1 := abs_pathAndQuery p q
+  simp only [callAll, pathAndQuery, List.map, intoPath_ofUri, abs] at h1 ⊢
+  rw [h1]
+
 /-- the string alone does not tell `/item?7` from `/item7` (the seeded change C03-7) -/
 example : eqStringOnly (ofUri [47, 105] (some [55])) (ofUri [47, 105, 55] none) = true ∧
     ofUri [47, 105] (some [55]) ≠ ofUri [47, 105, 55] none := by decide
